@@ -24,6 +24,7 @@ RULE = ("(a) all lists of n calls (n bound) sorted by (chromosome, refStop), eac
 ASSUMPTIONS = ["call rows have the 8 fields the finders emit; query ids are distinct",
                "sv modules are imported flat from $COMA_REPO/sv as the scripts themselves do"]
 
+QUERY_IDS = [2312, 12, 231, 5, 105, 31]      # distinct ids, some of which are substrings of others when written in decimal
 B = 4
 COORDS = [0, B - 1, B, B + 1, 2 * B, 2 * B + 1]
 CALLS = [(t, c, s, e) for t in ('deletion', 'insertion') for c in (1, 2) for s in COORDS for e in COORDS if s <= e]
@@ -52,7 +53,7 @@ def conservation_problems(snap, out, n):
 @core.guarded(lambda lst, *a: dict(kind='cluster', calls=[list(x) for x in lst], blur=B))
 def check_cluster(lst, acc):
     n = len(lst)
-    inp = [[t, c, s, e, 100 + i, 0, 1, 7] for i, (t, c, s, e) in enumerate(lst)]
+    inp = [[t, c, s, e, QUERY_IDS[i], 0, 1, 7] for i, (t, c, s, e) in enumerate(lst)]
     snap = copy.deepcopy(inp)
     found = []
     case = dict(kind='cluster', calls=[list(x) for x in lst], blur=B)
@@ -82,8 +83,8 @@ def check_cluster(lst, acc):
 
 def check_write(ins, dels, acc):
     k = 7500
-    mk = lambda lst, base: [[t, c, s * k, e * k, base + i, 0, 1, 7] for i, (t, c, s, e) in enumerate(lst)]  # noqa: E731
-    d_ins, d_del = mk(ins, 100), mk(dels, 200)
+    mk = lambda lst, base: [[t, c, s * k, e * k, QUERY_IDS[base + i], 0, 1, 7] for i, (t, c, s, e) in enumerate(lst)]  # noqa: E731
+    d_ins, d_del = mk(ins, 0), mk(dels, 3)
     path = os.path.join(core.scratch_dir(), 'indels-%d.txt' % os.getpid())
     found = []
     case = dict(kind='write', insertions=[list(x) for x in ins], deletions=[list(x) for x in dels])
